@@ -15,7 +15,8 @@ RULE = ('all digraphs with self-loops on <=N nodes (adjacency bitmask) x all '
 ASSUMPTIONS = ['reachability-closure oracle (O(n^3)) is correct',
                'CPython set iteration order is what varies visit order; '
                'covered by varying labels and insertion orders']
-FLOORS = {'sccs_calls': 1000, 'nontrivial': 100}
+FLOORS = {'sccs_calls': 1000, 'nontrivial': 100, 'protocol_builds': 500,
+          'shared_containers': 50}
 BATCH_TIMEOUT = 900
 
 
@@ -132,18 +133,108 @@ ID_MODES = {
 }
 
 
+def _container(rng, items, hashable, made):
+    """The same items handed over as a list, tuple, iterator - and, for
+    hashable nodes, as a set, frozenset or the keys of a dict."""
+    kinds = ['list', 'tuple', 'iter']
+    if hashable:
+        kinds += ['set', 'set', 'frozenset', 'keys']
+    k = rng.choice(kinds)
+    items = list(items)
+    if k == 'list':
+        c = list(items)
+        made.append(c)
+        return c
+    if k == 'tuple':
+        return tuple(items)
+    if k == 'iter':
+        return iter(items)
+    if k == 'set':
+        c = set(items)
+        made.append(c)
+        return c
+    if k == 'frozenset':
+        return frozenset(items)
+    d = dict.fromkeys(items)
+    made.append(d)
+    return d.keys()
+
+
+def build_by_protocol(DiGraph, rng, objs, order, adj, extra, hashable,
+                      skip_sink_call, stats):
+    """The same graph built the way callers may use the API: nodes given to
+    the constructor and / or added in pieces, the neighbours of a node added
+    over several add_neighbors() calls (with repetitions), in any container
+    type, one container object shared between nodes with the same
+    neighbours, and the caller re-using (emptying) its own containers once
+    the calls have been made."""
+    made = []
+    kw = {'make_hashable': None} if hashable else {}
+    seq = [objs[i] for i in order]
+    cut = rng.randint(0, len(seq))
+    if cut == 0 and rng.random() < 0.5:
+        g = DiGraph(**kw)
+    else:
+        g = DiGraph(_container(rng, seq[:cut], False, made), **kw)
+    rest = seq[cut:]
+    while rest:
+        k = rng.randint(1, len(rest))
+        g.add_nodes(_container(rng, rest[:k], False, made))
+        rest = rest[k:]
+    calls = []
+    shared = {}
+    for i in order:
+        nb = list(adj[i])
+        if skip_sink_call and not nb:
+            continue
+        if not nb or rng.random() < 0.4:
+            chunks = [nb]
+        else:
+            rng.shuffle(nb)
+            k = rng.randint(1, len(nb))
+            chunks = [nb[:k], nb[k:] + (nb[:1] if rng.random() < 0.3 else [])]
+            if rng.random() < 0.3:
+                chunks.append(list(nb))
+        for ch in chunks:
+            calls.append((i, ch))
+    if rng.random() < 0.5:
+        rng.shuffle(calls)
+    for i, ch in calls:
+        items = [objs[j] for j in ch] + extra
+        keyc = tuple(sorted(ch))
+        if hashable and not extra and keyc in shared and rng.random() < 0.6:
+            c = shared[keyc]          # the very same set object again
+            stats['shared_containers'] = stats.get('shared_containers', 0) + 1
+        else:
+            c = _container(rng, items, hashable, made)
+            if isinstance(c, set) and not extra:
+                shared[keyc] = c
+        g.add_neighbors(objs[i], c)
+    if rng.random() < 0.6:
+        for c in made:
+            c.clear()
+        stats['containers_reused_by_caller'] = \
+            stats.get('containers_reused_by_caller', 0) + 1
+    stats['protocol_builds'] = stats.get('protocol_builds', 0) + 1
+    stats['add_neighbors_calls'] = stats.get('add_neighbors_calls', 0) + \
+        len(calls)
+    return g
+
+
 def check_graph(DiGraph, labels, edges, order, mode, stats, viol, desc,
-                skip_sink_call=False, unknown=None):
+                skip_sink_call=False, unknown=None, proto=None):
     """Build the graph through the public API and compare sccs()."""
     n = len(labels)
     if mode in ID_MODES:
         objs = [ID_MODES[mode](l) for l in labels]
-        g = DiGraph([objs[i] for i in order])
+        if proto is None:
+            g = DiGraph([objs[i] for i in order])
         key = id
         stats['id_' + mode] = stats.get('id_' + mode, 0) + 1
     else:
         objs = list(labels)
-        g = DiGraph([objs[i] for i in order], make_hashable=None)
+        if proto is None:
+            g = DiGraph([objs[i] for i in order], make_hashable=None)
 
         def key(x):
             return x
@@ -152,7 +243,14 @@ def check_graph(DiGraph, labels, edges, order, mode, stats, viol, desc,
         adj[a].append(b)
     extra = [ID_MODES[mode]('unknown')] if (unknown and mode in ID_MODES) \
         else (['<unknown>'] if unknown else [])
+    if proto is not None:
+        desc = dict(desc, proto=proto)
+        g = build_by_protocol(DiGraph, random.Random(proto), objs, order,
+                              adj, extra, mode not in ID_MODES,
+                              skip_sink_call, stats)
     for i in order:
+        if proto is not None:
+            break
         if skip_sink_call and not adj[i]:
             continue
         g.add_neighbors(objs[i], [objs[j] for j in adj[i]] + extra)
@@ -298,6 +396,10 @@ def run_case(case):
                             'mode': mode, 'labels': lab}
                     check_graph(DiGraph, LABELSETS[lab](n), edges, order,
                                 mode, stats, viol, desc)
+                    if (mask + oi) % 3 == 1:
+                        check_graph(DiGraph, LABELSETS[lab](n), edges, order,
+                                    mode, stats, viol, desc,
+                                    proto=mask * 31 + oi)
                     if (mask + oi) % 5 == 0:
                         check_graph(DiGraph, LABELSETS[lab](n), edges, order,
                                     mode, stats, viol,
@@ -327,7 +429,9 @@ def run_case(case):
                     'seed': case['seed']}
             check_graph(DiGraph, list(range(n)), edges, order, mode, stats,
                         viol, desc, skip_sink_call=rng.random() < 0.3,
-                        unknown=rng.random() < 0.3)
+                        unknown=rng.random() < 0.3,
+                        proto=rng.randrange(1 << 30)
+                        if rng.random() < 0.5 else None)
         sample = {'kind': 'random', 'seed': case['seed']}
     elif kind == 'deep':
         rng = random.Random(case['seed'])
